@@ -6,7 +6,7 @@ export GOFLAGS=-mod=mod GOPROXY=off GOSUMDB=off GOTOOLCHAIN=local
 id=$1; m=$2
 dir=/verif/seeded/$id/$m
 wt=$(mktemp -d /tmp/confirm-$id-$m-XXXX)
-git -C /repo worktree add -q --detach "$wt" d4ce77e || exit 2
+git -C /repo worktree add -q --detach "$wt" ${BASE:-d4ce77e} || exit 2
 out=$dir/confirmed.txt
 : > $out
 meta=$dir/meta.json
